@@ -550,7 +550,7 @@ var bigPool = []string{"0", "1", "-1", "255", "9223372036854775807", "9223372036
 var jsonPool = []string{
 	`[]`, `{}`, `[1,2,3]`, `["a","b"]`, `[null]`, `[[1],[2,[3]]]`, `{"a":1}`, `{"a":1,"b":"x"}`, `{"b":1,"a":2,"c":3}`,
 	`{"k":[1,{"z":null}],"j":true}`, `[1,"a",null,true,{"a":[]},1.5]`, `{"":0}`, `{"é":"é","a b":[0]}`,
-	`{"_name":1,"_x":[2],"a":3}`, `{"_format":null,"_start":"s"}`, `{"_name":{"_name":"inner"},"b":"_x"}`,
+	`{"_name":1,"_x":[2],"a":3}`, `{"_format":null,"_start":"s"}`, `{"_actual":null,"_path":null,"_root":false,"_error":null,"_len":0}`, `{"_name":{"_name":"inner"},"b":"_x"}`,
 	`[18446744073709551616,-1,0.1]`, `{"x":{"y":{"z":[1,2]}}}`, `[3,1,2]`, `["b","a","c","a"]`, `{"d":4,"c":3,"b":2,"a":1,"e":5,"f":6,"g":7,"h":8,"i":9}`,
 }
 
